@@ -18,6 +18,15 @@ from pathlib import Path
 ROOT = Path(__file__).resolve().parent.parent.parent
 COQ = ROOT / "coq"
 REPO = Path(os.environ.get("VERIF_REPO", "/repo"))
+if REPO.resolve() != Path("/repo"):
+    # checks pointed at a scratch worktree (mutants, patches) get a private copy of coq/ so that
+    # their regenerated gen/*.v and rebuilt .vo never disturb checks running against /repo
+    _priv = ROOT / ".build" / ("coq_" + hashlib.sha1(str(REPO.resolve()).encode()).hexdigest()[:10])
+    _priv.parent.mkdir(exist_ok=True)
+    subprocess.run(["rsync", "-a", "--delete", "--exclude", "cases/", "--exclude", "build.lock",
+                    "--exclude", "gen/", str(COQ) + "/", str(_priv) + "/"], check=True)
+    (_priv / "gen").mkdir(exist_ok=True)
+    COQ = _priv
 CASES = COQ / "cases"
 NPROC = int(os.environ.get("VERIF_JOBS", "16"))
 
@@ -90,7 +99,9 @@ def v_files() -> list[str]:
 
 def translate() -> dict:
     sys.path.insert(0, str(ROOT / "tools"))
+    os.environ["VERIF_COQ_DIR"] = str(COQ)
     import translate as tr  # noqa
+    tr.OUT = COQ / "gen/Extracted.v"
     return tr.run()
 
 
